@@ -219,6 +219,10 @@ def main(argv):
         return mod.replay(payload)
     prop = a.prop
     ctx = Ctx(prop, a.tier, E.seed_from_env())
+    cover_dir = None
+    if os.environ.get("MSQ_COVER", "1") != "0":
+        cover_dir = os.path.join(E.BUILD, "cover", "%s-%d" % (prop, os.getpid()))
+        os.environ["MSQ_COVER_DIR"] = cover_dir
     try:
         spec = props_json().get(prop, {})
         mod = importlib.import_module("props." + prop.lower())
@@ -236,6 +240,15 @@ def main(argv):
     except Exception:
         traceback.print_exc()
         return 2
+    if cover_dir:
+        try:
+            import cover
+            hits = cover.collect(cover_dir)
+            ctx.cov["impl_line_coverage"] = cover.summarise(hits)
+            E.write_json(os.path.join(E.BUILD, "cover", "%s.json" % prop),
+                         {m: (sorted(v) if isinstance(v, set) else {str(k): x for k, x in v.items()}) for m, v in hits.items()})
+        except Exception as e:      # coverage is evidence about reach, never a verdict
+            ctx.cov["impl_line_coverage"] = {"error": "%s: %s" % (type(e).__name__, e)}
     ctx.write_evidence()
     for l in ctx.lines:
         print(l)
